@@ -323,7 +323,7 @@ targets! {
     "C03":"ledger" => c03::Ledger,
     "C04":"sbo" => c04::Sbo,
     "C05":"repeat" => c05::Repeat,
-    "C06":"stream" => c06::Stream, "C06":"biterrors" => c06::BitErrors,
+    "C06":"stream" => c06::Stream, "C06":"biterrors" => c06::BitErrors, "C06":"sessions" => c06::Sessions,
     "C07":"fcb" => c07::Fcb, "C07":"session" => c07::Sess,
     "C08":"mutated" => c08::Mutated,
     "C09":"accept_exact" => c09::AcceptExact, "C09":"requests" => c09::Requests, "C09":"writers" => c09::Writers, "C09":"attr_values" => c09a::AttrValues, "C09":"attr_responses" => c09a::AttrResponses,
